@@ -294,13 +294,16 @@ func attribute(bin string, sp sim.Spec, r childRes, env []string) ([]sim.Found, 
 	}
 	b, err := os.ReadFile(sim.CurFile(sp.Out))
 	if err != nil || len(b) < 8 {
+		fmt.Fprintf(os.Stderr, "verif: no record of the run in progress for child %d of %s (%v)\n", sp.Idx, sp.Sim, err)
 		return nil, false
 	}
 	cur := binary.LittleEndian.Uint64(b)
 	if cur == 0 {
 		return nil, false
 	}
-	return runSingle(bin, sp, int(cur-1), sp.Out+".attr", env)
+	found, ok := runSingle(bin, sp, int(cur-1), sp.Out+".attr", env)
+	fmt.Fprintf(os.Stderr, "verif: child %d of %s was lost in run %d (timed out: %v); re-executing that run alone: reproduced=%v\n", sp.Idx, sp.Sim, cur-1, r.timedOut, ok)
+	return found, ok
 }
 
 func headStr(s string, n int) string {
